@@ -285,11 +285,26 @@ func TestVerifAdvRun(t *testing.T) {
 		for _, uo := range []bool{false, true} {
 			var evs []advEvent
 			for j := 0; j < n; j++ {
-				evs = append(evs, advEvent{At: 5e9 + 1, Src: verifh.Pick(r, advSources)})
+				// two thirds from hosts of their own (a crowd), the rest from the usual few (repeats, ::)
+				src := fmt.Sprintf("fe80::1:%x", j)
+				if j%3 == 2 {
+					src = verifh.Pick(r, advSources)
+				}
+				evs = append(evs, advEvent{At: 5e9 + 1, Src: src})
 			}
 			emit(advScenario{ID: fmt.Sprintf("storm-%d-%v", k, uo), UnicastOnly: uo, Min: 3 * time.Second, Max: 4 * time.Second, Offset: int64(k) * 1e9,
 				Events: evs, Horizon: 15e9, Burst: true, Tags: []string{"stream:storm", fmt.Sprintf("unicast_only:%v", uo)}})
 		}
+	}
+	// (c'') a small crowd: 8..16 distinct hosts soliciting within 300 ms, at various distances from the last multicast RA
+	for k := 0; k < 8; k++ {
+		var evs []advEvent
+		at := int64(3500e6) + int64(k)*400e6
+		for j := 0; j < 8+k; j++ {
+			evs = append(evs, advEvent{At: at + int64(j)*20e6, Src: fmt.Sprintf("fe80::2:%x", j)})
+		}
+		emit(advScenario{ID: fmt.Sprintf("crowd-%d", k), Min: 3 * time.Second, Max: 4 * time.Second, Offset: int64(k) * 1e9,
+			Events: evs, Horizon: 15e9, Tags: []string{"stream:crowd"}})
 	}
 	// (d) reinitialization (a link event) in the middle of a run: the second incarnation starts over
 	// from its own initial RA (rate limit, loop index, PRNG seeds)
